@@ -225,6 +225,9 @@ ENUMS = {
     "single": [("T", "tuple", ["V", "W", "V"])],
     "single_unit": [("U", "unit", [])],
     "twin_payloads": [("A", "tuple", ["V", "V"]), ("B", "tuple", ["V", "V"]), ("U", "unit", [])],
+    # explicitly empty tuple / brace variants are not unit variants: no unit error, and (for Neg / Not) no Result when there is no unit variant
+    "empties_nounit": [("T", "tuple", ["V", "W"]), ("E0", "tuple", []), ("N0", "named", [])],
+    "empties_and_unit": [("E0", "tuple", []), ("T", "tuple", ["V"]), ("U", "unit", [])],
 }
 
 
@@ -273,7 +276,7 @@ def enum_binops(ename, variants, ops, forward, group):
             if k == "unit":
                 arms.append("            (E::%s, E::%s) => assert!(matches!(r, Err(derive_more::BinaryError::Unit(_))), \"unit variants must yield the unit error\")," % (n, n))
             else:
-                conds = " && ".join("x%d == l%d %s r%d" % (j, j, sym, j) for j in range(len(tys)))
+                conds = " && ".join("x%d == l%d %s r%d" % (j, j, sym, j) for j in range(len(tys))) or "true"
                 arms.append("            (%s, %s) => assert!(matches!(r, Ok(%s) if %s), \"same variant: Ok(field-wise)\")," % (
                     pat(n, k, tys, "l"), pat(n, k, tys, "r"), pat(n, k, tys, "x"), conds))
         if len(variants) > 1:
@@ -306,7 +309,7 @@ def enum_unary(ename, variants):
             if k == "unit":
                 arms.append("            E::%s => assert!(matches!(r, Err(_)), \"unit variant must yield the unit error\")," % n)
             else:
-                conds = " && ".join("x%d == %sl%d" % (j, sym, j) for j in range(len(tys)))
+                conds = " && ".join("x%d == %sl%d" % (j, sym, j) for j in range(len(tys))) or "true"
                 okpat = ("Ok(%s)" if has_unit else "%s") % pat(n, k, tys, "x")
                 arms.append("            %s => assert!(matches!(r, %s if %s), \"every field mapped\")," % (pat(n, k, tys, "l"), okpat, conds))
         src += "    #[kani::proof]\n    fn %s() {\n        let a = any_e();\n        let r = %sa;\n        match a {\n%s\n        }\n        kani::cover!(true, \"reach end\");\n    }\n" % (
